@@ -6,7 +6,13 @@ SPEC = dict(
          "checkpoint new upgrade transfer eject query solicit forget yield provide), (2) RefineOmegas gas/fetch/historical_lookup/export/log, "
          "(3) identifiers without entry in the accumulate / refine / is-authorized tables selected as Host.HostCall selects them (getOmega -> "
          "hostCallException): 27..99, 101..255, 256+k aliases of defined calls, > 255, sign-extended, calls of another invocation kind, "
-         "(4) the same through Host.HostCall itself on the program `ecalli imm; trap` (1-4 byte immediates incl. sign-extended ones). "
+         "(4) the same through Host.HostCall itself on the program `ecalli imm; trap` (1-4 byte immediates incl. sign-extended ones), "
+         "(5) the six inner-machine calls machine/peek/poke/pages/invoke/expunge of RefineOmegas one at a time: a set-up prefix of real calls "
+         "(machine, pages, poke; the machine map cannot be given directly) then ONE tested call with windows and buffers at page starts / ends / "
+         "straddling read-write, read-only, inaccessible and absent outer pages, 2^32-n, >= 2^32, machine ids live / never created / huge, inner "
+         "ranges inside / straddling / outside the opened pages, lengths 0..300, 4096.., >= 2^32, pages modes 0..7 and huge, inner programs "
+         "ecalli / trap / loop (out of gas) / halt / implicit trap, outer gas sometimes running out; compared after every call: exit kind, all 13 "
+         "registers (also after panic / out-of-gas), gas, the whole outer RAM and every inner machine (counter, heap pointer, pages). "
          "Registers: noise in every unused register, pointers at page starts / ends / crossing into the next page / at 2^32-n, 2^32-n+1, "
          ">= 2^32, 2^64-1, identifiers = existing / absent / existing + k*2^32 / 2^64-1 / self, amounts and lengths around the caller's free "
          "balance, gas 0..25 / ample / around 10 + transfer gas limit. Memory: 6 adjacent pages (base 16, the last pages below 2^32, random) "
@@ -23,8 +29,9 @@ SPEC = dict(
                  "the caller's account holds at least its threshold balance (Gray Paper invariant, proved preserved in C09); from such states the "
                  "Go code's missing FULL test on deletions cannot fire",
                  "solicit with a length register >= 2^32 is not generated (the Gray Paper gives it no type)",
-                 "machine, peek, poke, pages, invoke, expunge are not modelled (C33): UNCOVERED by this check",
-                 "on the unchanged tree seven defects show (proposed_fixes/C07-01..07); the check passes with those patches applied"],
+                 "the six inner-machine calls use the C33 model (Model/InnerVm.v): inner programs of stream (5) make no memory access (the address "
+                 "reported by a page fault, machine counters >= 2^32 and legal million-page requests are C33's subject and are not generated here)",
+                 "seven defects of the tree before commits C07-01..07 (all applied) are recorded in notes/C07.md"],
     run_timeout=3000,
 )
 
@@ -60,16 +67,22 @@ MANIFEST = dict(
          "range gives exactly (panic, registers unchanged, gas-10, nothing written, context unchanged); (hc_error_no_state_change) register 7 "
          "in {NONE,WHAT,OOB,WHO,FULL,CORE,CASH,LOW,HUH} implies both contexts unchanged (exception made by the Gray Paper itself: write answers "
          "NONE when it stores a new key); (hc_unknown_is_what) exactly the identifiers outside the defined set of each table - every natural, "
-         "so every >255 and sign-extended one - charge 10 gas, answer WHAT and change nothing. MODELLED: gas, fetch, lookup, read, write, info, "
+         "so every >255 and sign-extended one - charge 10 gas, answer WHAT and change nothing. ALL 28 CALLS COVERED: gas, fetch, lookup, read, write, info, "
          "log, bless, assign, designate, checkpoint, new, upgrade, transfer, eject, query, solicit, forget, yield, provide, historical_lookup, "
-         "export. NOT MODELLED (uncovered, C33): machine, peek, poke, pages, invoke, expunge. Tie to the code: every modelled call of the real "
+         "export over Model/HostCalls.v; machine, peek, poke, pages, invoke, expunge over the C33 model Model/InnerVm.v (imported unchanged), "
+         "for which the same four clauses are proved (C07_inner_*): only register 7 (and 8 for invoke) changes, 10 gas charged, no outer byte "
+         "outside the write window (peek [o,o+z), invoke the 112-byte record) and no access class changes, only ONE entry of the machine map "
+         "changes (fresh id / machine w7 / none for peek); the outer RAM can differ only after a continuing peek / invoke whose WHOLE window "
+         "passed the writability test, a window that fails it gives (panic, nothing changed), as does an unreadable blob (machine) or source "
+         "(poke); WHO / OOB / HUH in register 7 imply outer RAM and machine map unchanged. Tie to the code: every call of the real "
          "tables and the real dispatch loop run against the extracted S on every run, all observables compared.",
     note="Theorems are about Model/HostCalls.v (+ Model/AccCalls.v for the account arithmetic), a hand transcription of GP v0.7.2 App. B; that "
          "the Go functions equal S is decided by differential execution only. fetch's sixteen selectors and Lambda are oracles taken from the "
          "implementation; logging output is not observed; Go heap aliasing between x and y is visible only as far as single calls show it "
-         "(histories: C10). Out-of-gas after transfer sets gas to 0 as the Go code does. Seven defects of the unchanged tree are repaired by "
-         "proposed_fixes/C07-01..07 (register 7 := OOB on panic; new: manager of y, gratis ignored; service-id and length registers truncated "
-         "to 32 bits; transfer records before the gas test; export limit off by one).",
+         "(histories: C10). Out-of-gas after transfer sets gas to 0 as the Go code does. For the inner-machine calls the error clause needs a machine map of machine size whose "
+         "stored counters are not themselves codes (else the value returned by machine / expunge could read as WHO/OOB/HUH). Seven defects "
+         "found by this check were repaired by commits C07-01..07 (register 7 := OOB on panic; new: manager of y, gratis ignored; service-id and "
+         "length registers truncated to 32 bits; transfer records before the gas test; export limit off by one).",
     technique="Coq proofs by case analysis over an executable specification + model/implementation correspondence (extracted OCaml vs the real "
               "Go host-call functions and dispatch loop)",
     design_ref="DESIGN.md §4 C07",
